@@ -136,3 +136,61 @@ CLAIMED = {
 
 _TODO = "static rules for this property are specified in DESIGN.md section 3 but not yet implemented and self-tested; unclaimed until they are"
 NOT_APPLICABLE = {}
+
+
+# ---- additions made while building (rules added after seeded changes / findings; see DESIGN.md 3.0) ----
+def _add(pid, text=None, technique=None, note=None, replace_note=False):
+    c = CLAIMED[pid]
+    if text:
+        c["text"] = c["text"].rstrip() + " " + text
+    if technique:
+        c["technique"] = c["technique"].rstrip() + "; " + technique
+    if note:
+        c["note"] = note if replace_note else c["note"].rstrip() + " " + note
+
+
+_add("C01",
+     text="Further decided: a function that states a length precondition only in a debug assertion and then narrows to u8 is guarded on the release path (found and repaired the edit-distance overflow), and no byte length of a str/String reaches a span or an index into the char source unconverted (a span past the end makes Span::get_content panic).",
+     technique="stated-belief vs. callers rule for narrowing casts; byte-quantity taint rule over all front-end crates")
+_add("C02",
+     text="Further decided: no token-resizing pass runs after quote pairing (twins are token indices); an index list used after an earlier removal of the same pass is re-based by exactly the tokens that removal takes out (prover: pushed value = counter - (stretch-1) * len(earlier list)); byte quantities never reach spans unconverted; the Typst translator lexes verbatim source text only.",
+     technique="must-not-follow rule on Document::parse, affine-form check of pushed indices against container-length symbols, byte-quantity taint, accessor whitelist for the Typst AST")
+_add("C03",
+     text="Further decided: every character stored by Suggestion::apply is a copy of a character of the text or of the suggestion (no computing call on the way), so text outside the flagged span is carried over unchanged; the characters keyed by the chunk cache are exactly those of the chunk whose start re-bases the cached lints.",
+     technique="copy-only provenance rule on the stores of apply; exact (must) provenance of the keyed span")
+_add("C04",
+     text="Further decided: the Markdown byte and char cursors move in lock step (chars += text[bytes..X].chars().count(); bytes = X on every update); in every front-end crate no str/String byte length or position reaches a span or an index into the char source unconverted (ASCII literals excepted); the Typst translator hands the English lexer only verbatim source text.",
+     technique="lock-step pairing rule for the two accumulators, general byte-quantity taint rule, Typst accessor whitelist")
+_add("C05",
+     text="The suggestion memo of SpellCheck is keyed by the word through injective conversions only and the memoised search runs on that same word; the chunk-cache key covers exactly the characters of the chunk that is linted.")
+_add("C06",
+     text="The list stored in the suggestion memo and every list returned are dialect-filtered (retained in place on every path from the fuzzy search, or derived from filter(pred), with the predicate recognised through helper functions).")
+_add("C07",
+     text="Further decided: an open document adopts the reloaded dictionary - dictionary equality (which gates the linter rebuild) hashes the stored spellings of every child without a case/apostrophe normaliser on the way; the word-list reader decodes strictly (no lossy conversion of a partial buffer).",
+     technique="call-graph reachability from the dictionary hash to normalising functions; decoder whitelist in the reader")
+_add("C09",
+     text="Further decided: after the doc_state lock every successful return of update_document has stored a freshly built Document or removed the state (no shortcut keeps a Document parsed under older settings); a live DocumentState can only be created with the language id a didOpen supplied, so handlers that run after didClose cannot resurrect a closed document.",
+     technique="must-pass-through on Ok returns; provenance of the created state's language id and of every caller's language-id argument")
+_add("C10",
+     text="The per-file dictionary name joined onto the configured directory is a single path component (assembled from Path::components() items and literal non-separator characters), so the join cannot leave the configured directory.")
+_add("C11",
+     text="merge_from: inside the loop, the only branches that can route an entry around the insert test the value being set (an additional condition that drops an explicit choice is refuted).")
+_add("C12",
+     text="Further decided: lexers decide token ends from the front - no lexer-table entry (nor a helper that receives the uncut remaining input) scans that input from its end (found and repaired lex_number and lex_email_address, whose tokens depended on digits / @ signs in later paragraphs); index lists that survive a removal are re-based exactly; the chunk-cache key covers exactly the characters of the chunk that is linted.",
+     technique="back-scan taint over the lexer table with cut tracking; shared instances of the C02 / C05 rules")
+_add("C13",
+     text="The sweep arithmetic is decided by the prover: the vector is sorted by a key led by span.start, the running end starts at 0, an element is dropped only with start < running end entailed and kept only with start >= running end entailed, after which the running end is the kept span's end, and every path through the loop body does exactly one of the two. With well-formed spans this gives pairwise disjoint kept lints and that every dropped lint starts inside the kept lint that set the running end.",
+     technique="path-sensitive abstract interpretation of remove_overlaps over canonical symbols for the current element's span (counter-assignments over {start, end, running end} only)",
+     note="Not decided: spans with start > end. A sweep rewritten into another idiom (dedup_by, retain with captured state) is reported as anchor-missing (fail closed).", replace_note=True)
+_add("C14",
+     text="Further decided: the dictionary lookup is the last writer of token kinds in Document::parse - no pass that rewrites a kind from neighbouring tokens runs after it, so the kinds hashed by the ignore context are functions of each token's own characters.",
+     technique="ordering rule on Document::parse with a transitive kind-writer / other-token-reader classification of the passes")
+_add("C16",
+     text="Further decided: every non-empty answer of Linter::lint is produced after remove_ignored (no memoised or early answer bypasses the current ignore list), and lint() writes no field of self except the configuration overlay it restores.",
+     technique="dominance of every definition of the return value by remove_ignored; write-set of lint() on self")
+_add("C17",
+     text="Further decided: digits directly followed by suffix letters reach the number lexer - a fixed-shape lexer entry tried before lex_number that ends on a letter must look at the character after its match (sibling cross-check; found and repaired lex_long_decade, which split 1000st into the decade 1000s and t).",
+     technique="sibling cross-check over the lexer-table entries that precede lex_number (constant index reads, constant token length)")
+_add("C18",
+     text="Further decided: the first-word clause - the loop compares the ordinal of the word-like token (enumerate over iter_word_likes) with 0 and the true edge of that test reaches the upper-casing store on every path; a comparison of a token position with 0 is refuted.",
+     technique="provenance of the compared counter plus path check through the `||` lowering")
